@@ -35,3 +35,45 @@ for _el, _dim in _DIM.items():
              params={"self": _SELF, "center_coord": "opaque", "r": "opaque", "element": repr(_el)}, returns="opaque",
              ensures=[f"implies(same({_LEN}, 2), {_res(_BALL, _R, 'r')})", f"implies(same({_LEN}, 3), {_res(_KD, _R, 'r')})"],
              options=_OPT, raises=[("ValueError", "True", "only_if")])
+
+
+# ---- _slice_face_indices (C09 / C03 / C02 / C16): which variables of the source grid reach the subset, and which elements -------------
+# The subset is built by Grid.from_dataset from a dataset that (a) holds the source variables indexed by the kept faces, by the nodes
+# of those faces and by the edges of those faces; (b) holds NO table that indexes faces or edges of the SOURCE grid (incidence tables,
+# face_edge_connectivity, hole edges) and no edge-face distances (zero on boundary edges of the SOURCE, which differ from those of
+# the subset): they are rebuilt on the subset; (c) keeps the per-element geometry (coordinates, edge_node_distances, face areas).
+_SLI = "uxarray.grid.slice."
+_GG = "uxarray.grid.grid.Grid."
+_SRC_VARS = ["node_lon", "node_lat", "node_x", "face_lon", "face_areas", "edge_node_distances", "edge_face_distances",
+             "face_node_connectivity", "edge_node_connectivity", "face_edge_connectivity", "node_face_connectivity",
+             "edge_face_connectivity", "face_face_connectivity", "hole_edge_indices", "n_nodes_per_face"]
+_DROPPED = ["face_edge_connectivity", "node_face_connectivity", "edge_face_connectivity", "face_face_connectivity", "hole_edge_indices",
+            "edge_face_distances"]
+_KEPT = ["node_lon", "node_lat", "node_x", "face_lon", "face_areas", "edge_node_distances", "n_nodes_per_face",
+         "face_node_connectivity", "edge_node_connectivity", "subgrid_node_indices", "subgrid_face_indices", "subgrid_edge_indices"]
+_FI = "lib('numpy.asarray', indices, dtype=INT_DTYPE)"
+contract(_SLI + "_slice_face_indices", props=["C09", "C03", "C02", "C16"],
+         params={"grid": f"obj('Grid', ds_vars={_SRC_VARS!r})", "indices": "opaque", "inclusive": "True"},
+         returns="opaque",
+         ensures=[],
+         asserts={"before:return Grid.from_dataset(ds, source_grid_spec=grid.source_grid_spec)":
+                  [f"assert not has(ds, '{_n}')" for _n in _DROPPED] + [f"assert has(ds, '{_n}')" for _n in _KEPT],
+                  # the nodes / edges carried over are determined by the corner rows / edge rows of the kept faces and nothing else
+                  "before^ds = ds.isel(n_node#0": [
+                      f"assert depends_only(node_indices, getitem(attr(summary('{_GG}face_node_connectivity', grid), 'values'), face_indices))",
+                      f"assert depends_only(edge_indices, getitem(attr(summary('{_GG}face_edge_connectivity', grid), 'values'), face_indices))"]},
+         options={"abstract": True, "summaries": [_GG + "from_dataset", _GG + "face_node_connectivity", _GG + "face_edge_connectivity",
+                                                  _GG + "edge_node_connectivity"]},
+         raises=[("Exception", "False", "only_if")])
+
+
+# _slice_node_indices / _slice_edge_indices: the faces kept are the faces listed in the rows of the SELECTED nodes / edges of
+# node_face_connectivity / edge_face_connectivity (all of them, padding removed), and the subset is the face subset of those
+for _fn, _tab in (("_slice_node_indices", "node_face_connectivity"), ("_slice_edge_indices", "edge_face_connectivity")):
+    _U = f"lib('numpy.unique', meth('ravel', getitem(attr(summary('{_GG}{_tab}', grid), 'values'), indices)))"
+    contract(_SLI + _fn, props=["C09"],
+             params={"grid": "obj('Grid')", "indices": "opaque", "inclusive": "True"},
+             returns="opaque",
+             ensures=[f"same(result, summary('{_SLI}_slice_face_indices', grid, getitem({_U}, {_U} != FILL), True))"],
+             options={"abstract": True, "summaries": [_SLI + "_slice_face_indices", _GG + _tab]},
+             raises=[("Exception", "False", "only_if")])
